@@ -161,6 +161,7 @@ func (c *Cache) refresh() error {
 		devPrio, oldPrio := devSpec.GetPriority(), oldSpec.GetPriority()
 		switch {
 		case devPrio > oldPrio:
+			delete(conflicts, name)
 			return false
 		case devPrio == oldPrio:
 			devPath, oldPath := devSpec.GetPath(), oldSpec.GetPath()
